@@ -18,6 +18,12 @@ def dump (s : State) : String :=
   "L[" ++ ";".intercalate (s.folders.map sFolder) ++ "] D[" ++ ";".intercalate (s.deletedFolders.map sFolder) ++ "] R" ++
   sRoutes s.folderRoutes ++ s!" c={s.numCreations} d={s.numDeletions}"
 
+def sDescFiles (l : List (Name × Nat)) : String := "(" ++ ",".intercalate (l.map fun p => s!"{sName p.1}=#{p.2}") ++ ")"
+def sDescFolders (l : List (Name × FolderDesc)) : String :=
+  "[" ++ ";".intercalate (l.map fun p => s!"{sName p.1}=#{p.2.id}:" ++ sDescFiles p.2.files ++ ":" ++ sDescFiles p.2.deletedFiles) ++ "]"
+def sDesc (d : Desc) : String :=
+  "L" ++ sDescFolders d.folders ++ " D" ++ sDescFolders d.deletedFolders ++ s!" c={d.numCreations} d={d.numDeletions}"
+
 def parseOp : List String → Option Op
   | ["pre"] => some .preTick
   | ["tick"] => some .tick
@@ -33,7 +39,7 @@ def stepLine (s : State) : List String → State × String
     match parseOp ws with
     | some op =>
       let (s', o) := step s op
-      (s', sOut o ++ " | " ++ dump s')
+      (s', sOut o ++ " | " ++ dump s' ++ " | " ++ sDesc (describe s'))
     | none => (s, "bad-op")
 
 def main : IO Unit := runDriver (init none) stepLine
